@@ -119,6 +119,9 @@ def run(desc):
                     r.tr.counters["rule_exchange-truth"] += 1
                     live_refs = {b["customerOrderRef"] for b in bets if b["status"] != "EXECUTION_COMPLETE"}
                     ctx = st.get_runner_context(r.mid, sel[0], sel[1])
+                    m_ = r.w.market(r.mid)
+                    if m_ is not None and any(id(o_.trade) in r.stranded_by_own_exception for o_ in m_.blotter if (o_.selection_id, o_.handicap) == sel):
+                        continue  # (a `with trade:` block of the strategy raised: the trade is left PENDING by design)
                     if ctx.live_trade_count != len(live_refs):
                         r.tr.violate(PROPERTY, "live-trade-count-differs-from-exchange", {"direction": "leak" if ctx.live_trade_count > len(live_refs) else "under"}, ctx=ctx.live_trade_count, exchange_live=len(live_refs), log=r.log)
 
